@@ -56,10 +56,11 @@ def run(ctx, rep):
             for s in bl["s"]:
                 if b.local_name(s["d"]["l"]) == "verbatim_len":
                     pass
-        lts = [s for bl in b.blocks for s in bl["s"] if s["rv"]["r"] == "bin" and s["rv"]["op"] == "Lt"]
+        lts = [s for bl in b.blocks for s in bl["s"] if s["rv"]["r"] == "bin" and s["rv"]["op"] in ("Lt", "Gt")]
         g = False
         for s in lts:
-            a, c = backward_slice(b, s["rv"]["a"]), backward_slice(b, s["rv"]["b"])
+            small, big = (s["rv"]["a"], s["rv"]["b"]) if s["rv"]["op"] == "Lt" else (s["rv"]["b"], s["rv"]["a"])
+            a, c = backward_slice(b, small), backward_slice(b, big)
             if any(callee_name(x).endswith("BitRecorder::<N, E>::written") for x in a["calls"]) and any(o.startswith("Mul") for o in c["ops"]):
                 cc = [callee_name(x) for x in c["calls"]]
                 g = any(re.search(r"From<bitstream_io::SignedBitCount<MAX>> for u32>::from$|Into<U>>::into$", x) for x in cc)
@@ -76,9 +77,27 @@ def run(ctx, rep):
             continue
         mins = [t for _, t in fb.calls() if re.search(r"Iterator::min_by(_key)?$", callee_name(t))]
         maxs = [t for _, t in fb.calls() if re.search(r"Iterator::max_by(_key)?$|Iterator::max$", callee_name(t))]
-        total += len(mins)
-        rep.check("C19.min", "%s selects with a minimum combinator (%d site(s)), never a maximum" % (path, want), len(mins) == want and not maxs, loc_of(fb),
-                  "%d min, %d max" % (len(mins), len(maxs)), "%s: %d minimum selections (expected %d), %d maximum selections" % (path, len(mins), want, len(maxs)))
+        # an explicit `if a.written() <= b.written() { a } else { b }` is the same selection: count comparisons of two sizes whose
+        # smaller side is what gets chosen on the true edge (checked through the path facts at the reference to the chosen recorder)
+        explicit = 0
+        if len(mins) < want:
+            pfm = ok.path_facts(fb)
+            for bi, bl in enumerate(fb.blocks):
+                f = pfm.get(bi) or frozenset()
+                for st_ in bl["s"]:
+                    if st_["rv"]["r"] != "ref":
+                        continue
+                    fl = place_fields(root_place(fb, st_["rv"]["p"]))
+                    rec = [x for x in fl if x.endswith("_output")]
+                    if not rec:
+                        continue
+                    for x in f:
+                        if x[0] == "cmp" and x[1] in ("Le", "Lt") and "written" in str(x[2]) and "written" in str(x[3]) and rec[-1] in str(x[2]) and rec[-1] not in str(x[3]):
+                            explicit += 1
+            explicit = 1 if explicit else 0
+        total += len(mins) + explicit
+        rep.check("C19.min", "%s selects with a minimum combinator (%d site(s)), never a maximum" % (path, want), len(mins) + explicit == want and not maxs, loc_of(fb),
+                  "%d min, %d explicit, %d max" % (len(mins), explicit, len(maxs)), "%s: %d minimum selections (expected %d), %d maximum selections" % (path, len(mins) + explicit, want, len(maxs)))
         # the key of min_by_key closures is the written()/estimate, i.e. the closure reads .written() or a tuple's size field
         for t in mins:
             for c in t["cls"]:
